@@ -1,7 +1,32 @@
 """C10 - one conversation at a time per device, and login comes first (DESIGN §5 C10), device layer: see props/C07.py"""
 import json, C07
+def relogin_stage(ctx, V, exe, n):
+    """`login comes first` on EVERY connection: a tcp device answers a command, adds what looks like its login prompt and hangs up (the surplus
+    stays in the daemon's buffer); the next connection shows its prompt a few rounds late.  Nothing of the old connection may count as the
+    new connection's prompt: no command line may reach the device before the new connection has prompted (device-side clause
+    one-conversation / interleave of mon_c10), and the requests succeed."""
+    import random, pmgen, pmcheck
+    scs = []
+    for i in range(n):
+        rng = random.Random(ctx.seed * 334214459 + i)
+        cfg = pmgen.Config()
+        d0 = pmgen.Dev("d0", ["login", "on", "off", "status"], hardwired=["p1", "p2"], transport="tcp", timeout=rng.choice([4.0, 6.0]))
+        cfg.devs.append(d0); cfg.node_lines.append(("n0,n1", "d0", "p1,p2")); cfg.truth = {"d0": {"p1": "n0", "p2": "n1"}}
+        S = [("connect",), ("wait", 0), ("devmode", "d0", "readyclose")]
+        for r in [rng.choice(["on n0", "off n1", "status n0"]), rng.choice(["on n1", "off n0", "status n[0-1]"]), "status"]:
+            S += [("send", 0, (r + "\r\n").encode()), ("wait", 0)]
+        scs.append(pmcheck.Scenario(cfg, S, dict(style="c10-relogin", ncli=1)))
+    pmcheck.run_batch(ctx, V, exe, scs, ["alive", "wedge", "c10", "protocol"], "c10r")
+    V.count("relogin-histories", len(scs))
+
+
 def run(ctx, V):
-    C07.run_devlayer(ctx, V, ("login", "fifo", "count", "fd", "live"), 260, 6000, ["alive", "c10", "wedge"], ("mixed", "faults"), 300,
+    exe = _run(ctx, V)
+    relogin_stage(ctx, V, exe, 12 if ctx.tier == "quick" else 200)
+
+
+def _run(ctx, V):
+    return C07.run_devlayer(ctx, V, ("login", "fifo", "count", "fd", "live"), 260, 6000, ["alive", "c10", "wedge"], ("mixed", "faults"), 300,
                      "C10: per device the queue of client ids only loses a prefix (completed in that order) and gains a suffix; connected-and-not-logged-in <=> login is the head; telemetry / diagnostic callbacks only for clients completed later in the same pass or still queued (C10_callbacks_live).")
 def replay(ctx, V, path):
     print(json.dumps(json.load(open(path)), indent=1)[:6000]); return 0
